@@ -61,7 +61,8 @@ Record cond := mkCond { c_type : nat; c_attrs : list (string * attr) }.
 (* state outside the solver's attributes that later training depends on: how many batches have been
    drawn from the solver's own train / valid generators (their next draws), how often the global
    `random` module and torch's global RNG have been advanced; unknown = effects not modelled *)
-Record envstate := mkEnv { drawn_train : nat; drawn_valid : nat; py_random : nat; torch_rng : nat; unknown : nat }.
+Record envstate := mkEnv { drawn_train : nat; drawn_valid : nat; py_random : nat; torch_rng : nat; unknown : nat;
+                           stochastic : bool (* a forward pass of the solver's networks draws from torch's RNG (e.g. Dropout in training mode) *) }.
 
 Record state := mkState {
   kind : skind;
@@ -117,7 +118,7 @@ Definition cond_sem (c : cond) : cond :=
 
 (* ------------------------------------------------------------------ effects of the save path *)
 Definition effect_known (t : string) : bool :=
-  String.eqb t "draw:train" || String.eqb t "draw:valid" || String.eqb t "pyrandom" || String.eqb t "torchrng".
+  String.eqb t "draw:train" || String.eqb t "draw:valid" || String.eqb t "pyrandom" || String.eqb t "torchrng" || String.eqb t "forward".
 Definition for_kind (k : skind) (p : string * string) : bool := String.eqb (fst p) (skind_name k) || String.eqb (fst p) "all".
 Definition count_effect (sf : srcfacts) (k : skind) (tag : string) : nat :=
   length (filter (fun p => for_kind k p && String.eqb (snd p) tag) (sf_effects sf)).
@@ -127,8 +128,9 @@ Definition count_unknown (sf : srcfacts) (k : skind) : nat :=
 (* what running the save path does to the environment (it runs before dill.dump) *)
 Definition save_env (sf : srcfacts) (k : skind) (e : envstate) : envstate :=
   mkEnv (count_effect sf k "draw:train" + drawn_train e) (count_effect sf k "draw:valid" + drawn_valid e)
-        (count_effect sf k "pyrandom" + py_random e) (count_effect sf k "torchrng" + torch_rng e)
-        (count_unknown sf k + unknown e).
+        (count_effect sf k "pyrandom" + py_random e)
+        (count_effect sf k "torchrng" + (if stochastic e then count_effect sf k "forward" else 0) + torch_rng e)
+        (count_unknown sf k + unknown e) (stochastic e).
 
 (* ------------------------------------------------------------------ the saved dictionary *)
 Record file := mkFile {
@@ -145,7 +147,7 @@ Record file := mkFile {
   f_generator : bool;                     (* "generator" *)
   f_metrics : bool;                       (* "metrics" *)
   f_solver : option (nat);                (* "solver": the solver itself (r_min/r_max, hence n_params) *)
-  f_gen_pos : nat * nat                   (* the pickled generators carry their position (cache, counters) *)
+  f_gen_pos : nat * nat * bool            (* the pickled generators carry their position; the networks their layers *)
 }.
 
 Definition opt_if {B} (b : bool) (x : B) : option B := if b then Some x else None.
@@ -165,7 +167,7 @@ Definition mkfile (sf : srcfacts) (s : state) : file :=
          (saved sf "generator" "self.generator")
          (saved sf "metrics" "self.metrics_fn")
          (opt_if (saved sf "solver" "self") (n_params s))
-         (drawn_train (env s), drawn_valid (env s)).
+         (drawn_train (env s), drawn_valid (env s), stochastic (env s)).
 
 (* save: the solver afterwards, and the file if serialisation succeeded (an oracle outcome).
    get_conditions runs while the descriptive dictionary is built; the condition objects stored
@@ -227,7 +229,7 @@ Definition load (sf : srcfacts) (f : file) : option state :=
                     c l (match k with KBundle => np | _ => 0 end) layers
                     (* the loaded generators continue where the saved ones were; the process-wide RNG
                        counters are not part of a solver: a fresh process starts them at 0 *)
-                    (mkEnv (fst (f_gen_pos f)) (snd (f_gen_pos f)) 0 0 0))
+                    (mkEnv (fst (fst (f_gen_pos f))) (snd (fst (f_gen_pos f))) 0 0 0 (snd (f_gen_pos f))))
             end
           | _, _ => None
           end
@@ -249,7 +251,7 @@ Definition run_epoch (s : state) (e : epoch_data) : state :=
           (if better then Some (e_nets e) else best s)
           (conds s) (loss_id s) (n_params s) (eqs s)
           (mkEnv (drawn_train (env s) + fst (e_draws e)) (drawn_valid (env s) + snd (e_draws e))
-                 (py_random (env s)) (torch_rng (env s)) (unknown (env s))).
+                 (py_random (env s)) (torch_rng (env s)) (unknown (env s)) (stochastic (env s))).
 
 (* training driven by ANY deterministic trainer that may read the whole state, generator positions
    and RNG counters included: what "a twin that was never saved" runs *)
@@ -298,7 +300,7 @@ Definition run_op (sf : srcfacts) (s : state) (o : op) : option state :=
       match snd (save sf s true) with
       | Some f => match load sf f with
                   | Some l => Some (set_env l (mkEnv (drawn_train (env l)) (drawn_valid (env l))
-                                                     (py_random (env s')) (torch_rng (env s')) (unknown (env s'))))
+                                                     (py_random (env s')) (torch_rng (env s')) (unknown (env s')) (stochastic (env l))))
                   | None => None end
       | None => None end
   | OFit es => Some (fit s es)
@@ -339,4 +341,4 @@ Definition state_eqb (a b : state) : bool :=
   && Nat.eqb (n_params a) (n_params b) && leqb (leqb Nat.eqb) (eqs a) (eqs b)
   && Nat.eqb (drawn_train (env a)) (drawn_train (env b)) && Nat.eqb (drawn_valid (env a)) (drawn_valid (env b))
   && Nat.eqb (py_random (env a)) (py_random (env b)) && Nat.eqb (torch_rng (env a)) (torch_rng (env b))
-  && Nat.eqb (unknown (env a)) (unknown (env b)).
+  && Nat.eqb (unknown (env a)) (unknown (env b)) && Bool.eqb (stochastic (env a)) (stochastic (env b)).
